@@ -360,7 +360,25 @@ def gen_harness(items, prefix):
 
 
 # ------------------------------------------------------------------ actual (real tool chain)
-def actual(items, w2c2, workdir, cc="gcc", cflags=("-O1",), batch=24, w2c2_opts=(), run_timeout=120,
+def comma_locale(workdir):
+    """Environment of a user whose locale writes the decimal point as a comma (built with localedef: only LC_NUMERIC differs
+    from "C"); None if it cannot be built here."""
+    d = os.path.join(workdir, "locale")
+    os.makedirs(d, exist_ok=True)
+    with open(os.path.join(d, "ascii.charmap"), "w") as f:
+        f.write("<code_set_name> ANSI_X3.4-1968\n<comment_char> %\n<escape_char> /\n<mb_cur_min> 1\n<mb_cur_max> 1\nCHARMAP\n")
+        for n in range(128):
+            f.write("<U%04X> /x%02x CH%d\n" % (n, n, n))
+        f.write("END CHARMAP\n")
+    with open(os.path.join(d, "xx_XX.src"), "w") as f:
+        f.write('LC_NUMERIC\ndecimal_point "<U002C>"\nthousands_sep "<U002E>"\ngrouping 3;3\nEND LC_NUMERIC\n')
+    run(["localedef", "-c", "-f", os.path.join(d, "ascii.charmap"), "-i", os.path.join(d, "xx_XX.src"), os.path.join(d, "xx_XX")], timeout=120)
+    env = {"LOCPATH": d, "LC_ALL": "xx_XX"}
+    rc, out, err = run(["python3", "-c", "import locale; locale.setlocale(locale.LC_ALL, ''); print(locale.format_string('%.1f', 1.5))"], env=env, timeout=60)
+    return env if out.strip() == "1,5" else None
+
+
+def actual(items, w2c2, workdir, cc="gcc", cflags=("-O1",), batch=24, w2c2_opts=(), run_timeout=120, w2c2_env=None,
            extra_defs=(), keep=False, extra_srcs=(), localize=True):
     """Translate, compile and run.  Returns (obs dict keyed (id,k), problems list).
     problems: [(kind, item ids, text)] for translate/compile/run failures (observations in
@@ -395,14 +413,14 @@ def actual(items, w2c2, workdir, cc="gcc", cflags=("-O1",), batch=24, w2c2_opts=
                 # module gets its own directory; the blob is linked in with ld -r -b binary as the project documents
                 sub = os.path.join(d, it["modname"] + ".dir")
                 os.makedirs(sub, exist_ok=True)
-                rc, out, err = run([w2c2, *w2c2_opts, wasm, os.path.join(sub, it["modname"] + ".c")], timeout=120, cwd=sub)
+                rc, out, err = run([w2c2, *w2c2_opts, wasm, os.path.join(sub, it["modname"] + ".c")], timeout=120, cwd=sub, env=w2c2_env)
                 if rc == 0 and os.path.exists(os.path.join(sub, "datasegments")):
                     rc, out, err = run(["ld", "-r", "-b", "binary", "datasegments", "-o", os.path.join(d, it["modname"] + "-ds.o")], timeout=60, cwd=sub)
                 for f_ in os.listdir(sub):
                     if f_.endswith((".c", ".h")):
                         shutil.move(os.path.join(sub, f_), os.path.join(d, f_))
             else:
-                rc, out, err = run([w2c2, *(w2c2_opts or ("-m",)), wasm, os.path.join(d, it["modname"] + ".c")], timeout=120, cwd=d)
+                rc, out, err = run([w2c2, *(w2c2_opts or ("-m",)), wasm, os.path.join(d, it["modname"] + ".c")], timeout=120, cwd=d, env=w2c2_env)
             if rc != 0:
                 problems.append(("translate", [it["id"]], "rc=%s %s" % (rc, err[-800:])))
             else:
@@ -571,7 +589,7 @@ def replay(verdict, items, builds, sigfn=None, w2c2_flags=("-O1",), workdir=None
             return actual([dict(i) for i in usable], w2c2, os.path.join(wd, "run-" + b["name"]),
                           cc=b.get("cc", "gcc"), cflags=b.get("cflags", ("-O1",)),
                           extra_defs=b.get("defs", ()), w2c2_opts=b.get("w2c2_opts", ()),
-                          extra_srcs=b.get("extra_srcs", ()), batch=b.get("batch", 24), localize=b.get("localize", True))
+                          extra_srcs=b.get("extra_srcs", ()), batch=b.get("batch", 24), localize=b.get("localize", True), w2c2_env=b.get("w2c2_env"))
         # a build configuration is only as parallel as it has batches: run several configurations side by side
         nb = max(1, (len(usable) + 23) // 24, sum(len(i["script"]) for i in usable) // 2500)
         results = pmap(build_one, builds, jobs=max(1, min(len(builds), NCPU // min(nb, NCPU) + 1)))
